@@ -595,9 +595,9 @@ func main() {
 	if !r.Quick() {
 		counts = append(counts, 65535, 65536, 65537)
 	}
-	st = r.Explore("sizes", fmt.Sprintf("6 count fields (points of a multi-point, vertices of a line, rings of a polygon, lines of a multi-line, polygons of a multi-polygon, members of a collection) x counts %v x {LE,BE} x {absent, 4326}: every decode path", counts), mc.Opts{MaxDev: -1, Split: 2, NewLocal: newLocal}, func(c *mc.Ctx) {
+	st = r.Explore("sizes", fmt.Sprintf("8 size dimensions (points of a multi-point, vertices of a line, rings of a polygon, lines of a multi-line, polygons of a multi-polygon, members of a collection, sibling sub-collections, nesting depth n/8) x counts %v x {LE,BE} x {absent, 4326}: every decode path", counts), mc.Opts{MaxDev: -1, Split: 2, NewLocal: newLocal}, func(c *mc.Ctx) {
 		l := c.Local().(*loc)
-		dim := c.Choose(6)
+		dim := c.Choose(8)
 		n := counts[c.Choose(len(counts))]
 		order := orders[c.Choose(2)]
 		srid := []int{0, 4326}[c.Choose(2)]
@@ -644,6 +644,18 @@ func main() {
 				}
 			}
 			g = m
+		case 6: // many sibling sub-collections (nesting depth 2)
+			m := make(orb.Collection, n)
+			for i := range m {
+				m[i] = orb.Collection{pt(i)}
+			}
+			g = m
+		case 7: // a chain of nested collections, n/8 levels deep (31..125, thorough 8192)
+			var inner orb.Geometry = pt(0)
+			for i := 0; i < n/8; i++ {
+				inner = orb.Collection{inner, pt(i + 1)}
+			}
+			g = inner
 		}
 		l.calls += int64(checkAll(c, g, srid, order, false))
 		c.NonTrivial()
